@@ -275,6 +275,16 @@ def is_worklist_closure(fn_node, helpers=None):
         if isinstance(lp.test, ast.UnaryOp) and isinstance(lp.test.op, ast.Not) and isinstance(lp.test.operand, ast.Call) \
                 and isinstance(lp.test.operand.func, ast.Attribute) and lp.test.operand.func.attr in ("empty", "is_empty"):
             w = ast.unparse(lp.test.operand.func.value)
+        elif isinstance(lp.test, ast.Constant) and lp.test.value is True:
+            # `while True:` whose body leaves by `if <W is empty>: break` (any spelling) at its top level
+            for st in lp.body:
+                if isinstance(st, ast.If) and not st.orelse and len(st.body) == 1 and isinstance(st.body[0], ast.Break):
+                    for cand in sorted({ast.unparse(n) for n in ast.walk(st.test) if isinstance(n, (ast.Name, ast.Attribute))}):
+                        if (min_len(st.test, False, cand) or 0) >= 1:
+                            w = cand
+                            break
+                if w is not None:
+                    break
         else:
             # any test that implies "W is not empty": W, bool(W), len(W) > 0, len(W) != 0, 0 < len(W), W != [] ...
             for cand in sorted({ast.unparse(n) for n in ast.walk(lp.test) if isinstance(n, (ast.Name, ast.Attribute))}):
@@ -656,3 +666,8 @@ def element_of_field_or_copy(summ: Summary, av: Optional[AV], field_loc) -> bool
             if src is not None and field_loc in src.alias:
                 roots |= {l for l in ev.result.alias if l[0].startswith("fresh:")}
     return any((l[0], ()) in {(r[0], ()) for r in roots} and l[1][:1] == ("[]",) for l in av.alias)
+
+
+def own(summ: Summary):
+    """The events of the entry frame and of the private-helper frames reached from it (see walk_own), as a list."""
+    return [ev for ev, _ in walk_own(summ)]
